@@ -49,6 +49,53 @@ func entData(c entCase) []byte {
 		}
 		return b
 	}
+	var q, seg int
+	if n, _ := fmt.Sscanf(c.Fam, "hot:%d:%d", &q, &seg); n == 2 && seg > 0 {
+		// non-stationary data: segments of seg bytes, every fourth one (index q mod 4) holds permutations of 254 distinct
+		// values, the others two alternating symbols: codes built over a whole chunk are far from the local statistics
+		b := make([]byte, c.Len)
+		perm := rnd.Perm(254)
+		for i := range b {
+			if (i/seg)%4 == q {
+				if i%254 == 0 {
+					perm = rnd.Perm(254)
+				}
+				b[i] = byte(perm[i%254] + 2)
+			} else {
+				b[i] = byte(i & 1)
+			}
+		}
+		return b
+	}
+	if n, _ := fmt.Sscanf(c.Fam, "piecewise:%d", &seg); n == 1 && seg > 0 {
+		// every segment has its own distribution
+		var b []byte
+		kinds := []string{"zeros", "alpha2", "perm", "random", "text", "skew"}
+		for len(b) < c.Len {
+			m := min(seg, c.Len-len(b))
+			switch kinds[rnd.Intn(len(kinds))] {
+			case "alpha2":
+				for i := 0; i < m; i++ {
+					b = append(b, byte(i&1))
+				}
+			case "perm":
+				for i := 0; i < m; i++ {
+					b = append(b, byte((i*37+11)%254+2))
+				}
+			case "zeros":
+				b = append(b, make([]byte, m)...)
+			case "random":
+				t := make([]byte, m)
+				rnd.Read(t)
+				b = append(b, t...)
+			case "text":
+				b = append(b, gen.Make("text", rnd.Int63(), m)...)
+			default:
+				b = append(b, gen.Make("skew", rnd.Int63(), m)...)
+			}
+		}
+		return b
+	}
 	return gen.Make(c.Fam, c.Seed, c.Len)
 }
 
@@ -192,6 +239,19 @@ func cmdEntropy(args []string) int {
 			}
 		}
 	}
+	// non-stationary data: the statistics of a part of a chunk differ from those of the whole chunk, for every quarter of the
+	// internal chunk sizes (16 KiB, 32 KiB) and across chunk boundaries
+	for ci, codec := range entropyNames {
+		for li, l := range []int{16384, 32768, 2*16384 + 7, 65536} {
+			for q := 0; q < 4; q++ {
+				for si, seg := range []int{4096, 8192} {
+					add(codec, l, fmt.Sprintf("hot:%d:%d", q, seg), []int{0, 3, 8}[(ci+li+q+si)%3])
+				}
+			}
+			add(codec, l, "piecewise:4096", 0)
+			add(codec, l+5000, "piecewise:1024", 5)
+		}
+	}
 	for i := 0; i < *n; i++ {
 		codec := pick(rnd, entropyNames)
 		l := rnd.Intn(70000)
@@ -203,6 +263,8 @@ func cmdEntropy(args []string) int {
 			fam = fmt.Sprintf("rare:%d:%d", rnd.Intn(256), 1+rnd.Intn(8))
 		} else if rnd.Intn(3) == 0 {
 			fam = pick(rnd, gen.Shapes)
+		} else if rnd.Intn(4) == 0 {
+			fam = fmt.Sprintf("piecewise:%d", pick(rnd, []int{256, 1024, 4096, 8192}))
 		}
 		add(codec, l, fam, rnd.Intn(64))
 	}
